@@ -552,6 +552,11 @@ class Folder:
         return FoldedObject(qual, attrs)
 
     def _run_init(self, init, largs: list, lkw: dict, attrs: dict, depth: int) -> None:
+        if not largs:
+            # canonical keyword form: the receiver is bound under the first parameter's name
+            p0 = init.params()[0]
+            lkw = dict(lkw)
+            largs = [lkw.pop(p0)]
         bound = bind_args(init, largs, lkw)
         if bound is None:
             raise NotConstant(f"cannot bind arguments of {init.qual}")
@@ -563,8 +568,11 @@ class Folder:
         # source position
         events = []
         for cr in sm.calls:
-            if cr.fn[0] == "func" and cr.fn[1].endswith(".__init__") and not cr.inlined and cr.args and cr.args[0] == selfterm:
-                events.append((cr.node.lineno, cr.node.col_offset, "call", cr))
+            if cr.fn[0] == "func" and cr.fn[1].endswith(".__init__") and not cr.inlined:
+                f2 = self.prog.functions.get(cr.fn[1])
+                recv = cr.args[0] if cr.args else (dict(cr.kwargs).get(f2.params()[0]) if f2 is not None else None)
+                if recv == selfterm:
+                    events.append((cr.node.lineno, cr.node.col_offset, "call", cr))
         for e in sm.effects:
             if e.kind == "store_attr" and e.target == selfterm:
                 events.append((e.node.lineno, e.node.col_offset, "store", e))
